@@ -133,6 +133,9 @@ def in_situ(chk, seed, rounds):
             permits = max(limit - 5, 64)
             o = {"hash_fn": "metro", "kind": r.choice(["ssd", "unknown"]), "threads": ["default:%d,%d" % (r.choice([128, 256]), r.choice([64, 256])),
                                                                                     "main:8"]}
+            if k % 3 == 2:
+                # pool size 0 = "as many threads as cores": the permit counts derived from pool sizes must follow the real size
+                o["threads"] = r.choice([["0"], ["default:0,0"], ["default:0,64"], ["default:64,0", "main:0"]])
             log = os.path.join(d, "shim.log")
             # every read of a tree file is delayed so that as many hashing tasks as the pools allow hold a file open
             env = gm.env_for(o, os.path.join(d, "home"), shimlog.shim_env(log, [troot], shimlog.plan(shimlog.rule("read", b"", 0, "delay:15000"))))
@@ -143,7 +146,7 @@ def in_situ(chk, seed, rounds):
             p = subprocess.Popen(argv, env=env, cwd=troot, stdin=subprocess.DEVNULL, stdout=subprocess.PIPE, stderr=subprocess.PIPE,
                                  preexec_fn=lower)
             try:
-                out, err = p.communicate(timeout=180)
+                out, err = p.communicate(timeout=90)
             except subprocess.TimeoutExpired:
                 hung = quiescent(p.pid)
                 p.kill()
